@@ -7,6 +7,7 @@ For every signature of the Abi catalogue and every value vector this module prod
 Tokens are canonical renderings of bit patterns, so "delivered bit-for-bit" is string equality per ABI slot.
 """
 import json, random, struct
+from abisig import fname
 
 W = {"u8": 8, "i8": 8, "u16": 16, "i16": 16, "u32": 32, "i32": 32, "u64": 64, "i64": 64, "usize": 64, "isize": 64}
 CTY = {"u8": "uint8_t", "i8": "int8_t", "u16": "uint16_t", "i16": "int16_t", "u32": "uint32_t", "i32": "int32_t", "u64": "uint64_t",
@@ -154,7 +155,7 @@ class Gen:
         if k == "enum":
             return 'format!("e:{:x}", ((%s) as i32) as u32)' % e
         if k == "struct":
-            parts = [self.rust_fmt(f, "(%s).f%d" % (e, i)) for i, f in enumerate(self.defs[t["n"]])]
+            parts = [self.rust_fmt(f, "(%s).%s" % (e, fname(i))) for i, f in enumerate(self.defs[t["n"]])]
             return 'format!("{{{}}}", vec![%s].join(","))' % ", ".join(parts)
         if k in ("opq", "opqmut"):
             return 'format!("p:{:x}", (&*(%s)) as *const Opq as usize)' % e
@@ -204,7 +205,7 @@ class Gen:
         if k == "enum":
             return "En::" + v
         if k == "struct":
-            fs = ", ".join("f%d: %s" % (i, self.rust_make(f, x, True)) for i, (f, x) in enumerate(zip(self.defs[t["n"]], v)))
+            fs = ", ".join("%s: %s" % (fname(i), self.rust_make(f, x, True)) for i, (f, x) in enumerate(zip(self.defs[t["n"]], v)))
             return "%s { %s }" % (t["n"], fs)
         if k in ("opq", "opqmut"):
             return "&self.inner"
@@ -292,7 +293,7 @@ class Gen:
             out.append("%s = En_%s;" % (lv, v))
         elif k == "struct":
             for i, (f, x) in enumerate(zip(self.defs[t["n"]], v)):
-                self.c_assign(f, x, "%s.f%d" % (lv, i), out, tmp)
+                self.c_assign(f, x, "%s.%s" % (lv, fname(i)), out, tmp)
         elif k in ("opq", "opqmut", "optopq"):
             out.append("%s = %s;" % (lv, "NULL" if v is None else "obj"))
         elif k == "opt":
@@ -359,7 +360,7 @@ class Gen:
             for i, f in enumerate(self.defs[t["n"]]):
                 if i:
                     out.append('L(",");')
-                self.c_fmt(f, "(%s).f%d" % (e, i), out)
+                self.c_fmt(f, "(%s).%s" % (e, fname(i)), out)
             out.append('L("}");')
         elif k in ("opq", "opqmut", "optopq", "box", "optbox"):
             out.append('L("p:%%llx", (unsigned long long)(uintptr_t)(%s));' % e)
@@ -493,9 +494,9 @@ class Gen:
             elif rk == "res" and sig["ret"]["ok"]["k"] == "optbox":
                 out.append("if (r_.is_ok && r_.ok) Opq_destroy(r_.ok);")
             elif rk == "struct" and sig["ret"]["n"] == "Os":
-                out.append("Opq_destroy(r_.f0); if (r_.f1) Opq_destroy(r_.f1);")
+                out.append("Opq_destroy(r_.%s); if (r_.%s) Opq_destroy(r_.%s);" % (fname(0), fname(1), fname(1)))
             elif rk == "res" and sig["ret"]["ok"]["k"] == "struct" and sig["ret"]["ok"]["n"] == "Os":
-                out.append("if (r_.is_ok) { Opq_destroy(r_.ok.f0); if (r_.ok.f1) Opq_destroy(r_.ok.f1); }")
+                out.append("if (r_.is_ok) { Opq_destroy(r_.ok.%s); if (r_.ok.%s) Opq_destroy(r_.ok.%s); }" % (fname(0), fname(1), fname(1)))
         if sig["write"]:
             out.append('LB(); L("w[%llu|", (unsigned long long)diplomat_buffer_write_len(w_));')
             out.append("{ char* b_ = diplomat_buffer_write_get_bytes(w_); for (size_t i_ = 0; i_ < diplomat_buffer_write_len(w_); i_++) "
